@@ -151,57 +151,64 @@ Example C15_ex_script_denied :
              [(kA, [51]); (kB, [50])] (StdinText [104; 105; 10]) OutCapture OutInherit (Some 5000)).
 Proof. vm_compute. reflexivity. Qed.
 
-(* every cap at its bound is accepted, one above is rejected with that cap's kind
-   (default caps; argument / total / stdin sizes are the real 64 KiB / 256 KiB / 1 MiB) *)
+(* every default cap at its bound is accepted, one above is rejected with that cap's kind.
+   The sizes are taken from the generated default_caps (today 64 KiB per argument, 256 KiB of
+   arguments, 256 arguments, 1 MiB of stdin, ...), not written as literals. *)
 Definition is_ok (r : result spec) : bool := match r with Ok _ => true | Err _ => false end.
 Definition cmd0 : command := command_new ex_prog.
 Definition with_args (l : list str) : command := fold_left push_arg l cmd0.
+Definition dc := default_caps.
 
 Example C15_ex_arg_at_cap :
-  is_ok (validate default_caps (with_args [bytes_of 65536 97])) = true /\
-  validate default_caps (with_args [bytes_of 65537 97]) = Err VArgument.
+  is_ok (validate dc (with_args [bytes_of (max_arg_bytes dc) 97])) = true /\
+  validate dc (with_args [bytes_of (max_arg_bytes dc + 1) 97]) = Err VArgument.
 Proof. split; vm_compute; reflexivity. Qed.
 
+Definition args_filling_total : list str :=
+  repeat (bytes_of (max_arg_bytes dc) 97) (Z.to_nat (max_total_arg_bytes dc / max_arg_bytes dc)) ++
+  [bytes_of (max_total_arg_bytes dc mod max_arg_bytes dc) 97].
+
 Example C15_ex_arg_total_at_cap :
-  is_ok (validate default_caps (with_args (repeat (bytes_of 65536 97) 4))) = true /\
-  validate default_caps (with_args (repeat (bytes_of 65536 97) 4 ++ [[97]])) = Err VArgBytes.
+  is_ok (validate dc (with_args args_filling_total)) = true /\
+  validate dc (with_args (args_filling_total ++ [[97]])) = Err VArgBytes.
 Proof. split; vm_compute; reflexivity. Qed.
 
 Example C15_ex_arg_count_at_cap :
-  is_ok (validate default_caps (with_args (repeat [97] 256))) = true /\
-  validate default_caps (with_args (repeat [97] 257)) = Err VArgCount.
+  is_ok (validate dc (with_args (repeat [97] (Z.to_nat (max_args dc))))) = true /\
+  validate dc (with_args (repeat [97] (S (Z.to_nat (max_args dc))))) = Err VArgCount.
 Proof. split; vm_compute; reflexivity. Qed.
 
 Example C15_ex_program_cap_and_names :
-  is_ok (validate default_caps (command_new (bytes_of 4096 97))) = true /\
-  validate default_caps (command_new (bytes_of 4097 97)) = Err VProgram /\
-  validate default_caps (command_new []) = Err VProgram /\
-  validate default_caps (command_new [97; 0; 98]) = Err VProgram /\
-  validate default_caps (with_args [[97; 0]]) = Err VArgument /\
-  validate default_caps (set_cwd cmd0 []) = Err VCwd /\
-  validate default_caps (set_cwd cmd0 (bytes_of 4097 97)) = Err VCwd /\
-  is_ok (validate default_caps (set_cwd cmd0 (bytes_of 4096 97))) = true.
+  is_ok (validate dc (command_new (bytes_of (max_program_bytes dc) 97))) = true /\
+  validate dc (command_new (bytes_of (max_program_bytes dc + 1) 97)) = Err VProgram /\
+  validate dc (command_new []) = Err VProgram /\
+  validate dc (command_new [97; 0; 98]) = Err VProgram /\
+  validate dc (with_args [[97; 0]]) = Err VArgument /\
+  validate dc (set_cwd cmd0 []) = Err VCwd /\
+  validate dc (set_cwd cmd0 (bytes_of (max_cwd_bytes dc + 1) 97)) = Err VCwd /\
+  is_ok (validate dc (set_cwd cmd0 (bytes_of (max_cwd_bytes dc) 97))) = true.
 Proof. repeat split; vm_compute; reflexivity. Qed.
 
 Example C15_ex_env_names_and_caps :
-  validate default_caps (set_env cmd0 [] [49]) = Err VEnvKey /\
-  validate default_caps (set_env cmd0 [65; 61; 66] [49]) = Err VEnvKey /\
-  validate default_caps (set_env cmd0 [65; 0] [49]) = Err VEnvKey /\
-  validate default_caps (set_env cmd0 kA [49; 0]) = Err VEnvValue /\
-  is_ok (validate default_caps (set_env cmd0 kA [61; 61])) = true /\
-  is_ok (validate default_caps (set_env cmd0 kA [])) = true /\
-  is_ok (validate default_caps (set_env cmd0 (bytes_of 256 65) (bytes_of 16384 97))) = true /\
-  validate default_caps (set_env cmd0 (bytes_of 257 65) [49]) = Err VEnvKey /\
-  validate default_caps (set_env cmd0 kA (bytes_of 16385 97)) = Err VEnvValue.
+  validate dc (set_env cmd0 [] [49]) = Err VEnvKey /\
+  validate dc (set_env cmd0 [65; 61; 66] [49]) = Err VEnvKey /\
+  validate dc (set_env cmd0 [65; 0] [49]) = Err VEnvKey /\
+  validate dc (set_env cmd0 kA [49; 0]) = Err VEnvValue /\
+  is_ok (validate dc (set_env cmd0 kA [61; 61])) = true /\
+  is_ok (validate dc (set_env cmd0 kA [])) = true /\
+  is_ok (validate dc (set_env cmd0 (bytes_of (max_env_key_bytes dc) 65)
+                                  (bytes_of (max_env_value_bytes dc) 97))) = true /\
+  validate dc (set_env cmd0 (bytes_of (max_env_key_bytes dc + 1) 65) [49]) = Err VEnvKey /\
+  validate dc (set_env cmd0 kA (bytes_of (max_env_value_bytes dc + 1) 97)) = Err VEnvValue.
 Proof. repeat split; vm_compute; reflexivity. Qed.
 
 Example C15_ex_stdin_and_timeout :
-  is_ok (validate default_caps (set_stdin cmd0 (StdinText (bytes_of 1048576 97)))) = true /\
-  validate default_caps (set_stdin cmd0 (StdinText (bytes_of 1048577 97))) = Err VStdin /\
-  validate default_caps (set_stdin cmd0 (StdinText [0])) = Err VStdin /\
-  validate default_caps (set_timeout cmd0 0) = Err VTimeoutZero /\
-  is_ok (validate default_caps (set_timeout cmd0 3600000)) = true /\
-  validate default_caps (set_timeout cmd0 3600001) = Err VTimeoutMax.
+  is_ok (validate dc (set_stdin cmd0 (StdinText (bytes_of (max_stdin_bytes dc) 97)))) = true /\
+  validate dc (set_stdin cmd0 (StdinText (bytes_of (max_stdin_bytes dc + 1) 97))) = Err VStdin /\
+  validate dc (set_stdin cmd0 (StdinText [0])) = Err VStdin /\
+  validate dc (set_timeout cmd0 0) = Err VTimeoutZero /\
+  is_ok (validate dc (set_timeout cmd0 (max_timeout_ms dc))) = true /\
+  validate dc (set_timeout cmd0 (max_timeout_ms dc + 1)) = Err VTimeoutMax.
 Proof. repeat split; vm_compute; reflexivity. Qed.
 
 (* env written several times: last value per key, first-write order, no duplicates *)
